@@ -207,6 +207,7 @@ def cases(tier, seed=0):
     out.append(Quad(what="overlap", ls=[2], types="s", Ms=[1]))
     out.append(Quad(what="moment", ls=[1, 0], types="cc", Ms=[1, 1], orders=[[1, 0, 0], [0, 1, 1]]))
     out.append(Quad(what="moment", ls=[1], types="c", Ms=[1], orders=[[2, 0, 0], [0, 1, 1]]))
+    out.append(Quad(what="moment", ls=[0, 1], types="cc", Ms=[1, 1], orders=[[2, 0, 0], [0, 0, 2], [1, 1, 0]]))
     out.append(Quad(what="kinetic", ls=[1, 0], types="cc", Ms=[1, 1]))
     out.append(Quad(what="kinetic", ls=[1], types="s", Ms=[1]))
     out.append(Quad(what="density", ls=[1], types="c", Ms=[1]))
